@@ -143,22 +143,73 @@ def effects(mod, f, S):
 
 
 _ret_memo = {}
+EXT_RETS = {}       # symbol -> set of constants for callees outside the module (asm entry points), filled by the property checks
+
+
+def _strip(f, v):
+    while True:
+        d = f.defs.get(v)
+        if d is not None and d.op in ('zext', 'sext', 'trunc', 'freeze', 'bitcast'):
+            v = d.ops[0]
+        else:
+            return v
+
+
+def _sat(pred, x, k):
+    return {'eq': x == k, 'ne': x != k, 'sgt': x > k, 'sge': x >= k, 'slt': x < k, 'sle': x <= k,
+            'ugt': (x % (1 << 32)) > (k % (1 << 32)), 'uge': (x % (1 << 32)) >= (k % (1 << 32)), 'ult': (x % (1 << 32)) < (k % (1 << 32)), 'ule': (x % (1 << 32)) <= (k % (1 << 32))}[pred]
+
+
+_NEG = {'eq': 'ne', 'ne': 'eq', 'sgt': 'sle', 'sge': 'slt', 'slt': 'sge', 'sle': 'sgt', 'ugt': 'ule', 'uge': 'ult', 'ult': 'uge', 'ule': 'ugt'}
+
+
+def edge_constraints(f, v, block):
+    """[(pred, const)] known to hold for SSA value v whenever `block` executes, from dominating branches on icmp(v, const)"""
+    out = []
+    sv = _strip(f, v)
+    for b in f.order:
+        t = f.blocks[b].insns[-1] if f.blocks[b].insns else None
+        if t is None or t.op != 'br' or not t.extra.get('cond'):
+            continue
+        c = f.defs.get(t.extra['cond'])
+        if c is None or c.op != 'icmp' or not re.match(r'^-?\d+$', c.ops[1]) or _strip(f, c.ops[0]) != sv:
+            continue
+        tt, tf = t.extra['targets']
+        k = int(c.ops[1])
+        if tt != tf:
+            if f.blocks[tt].preds == [b] and f.dominates(tt, block):
+                out.append((c.extra['pred'], k))
+            if f.blocks[tf].preds == [b] and f.dominates(tf, block):
+                out.append((_NEG[c.extra['pred']], k))
+    return out
 
 
 def ret_set(mod, fname, depth=0):
-    """set of integer constants a function may return; 'unk' if a returned value is not a constant / callee result"""
+    """set of integer constants a function may return; 'unk...' if a returned value is not a constant / callee result.
+    Branch and select conditions on the returned value itself are used to filter ("if (ret < 0) return ret;", "ret > 0 ? OK : ret")."""
     key = (id(mod), fname)
     if key in _ret_memo:
         return _ret_memo[key]
     _ret_memo[key] = set()
     f = mod.funcs.get(fname)
     if f is None:
-        _ret_memo[key] = {'unk:' + fname}
+        _ret_memo[key] = set(EXT_RETS[fname]) if fname in EXT_RETS else {'unk:' + fname}
         return _ret_memo[key]
     out = set()
     P = prov(mod, f)
 
-    def val(v, seen):
+    def filt(vals, cons):
+        r = set()
+        for x in vals:
+            if isinstance(x, int):
+                xs = x if x < (1 << 31) else x - (1 << 32)
+                if all(_sat(p, xs, k) for p, k in cons):
+                    r.add(x)
+            else:
+                r.add(x)
+        return r
+
+    def val(v, seen, block):
         if v in seen:
             return set()
         seen = seen | {v}
@@ -169,27 +220,76 @@ def ret_set(mod, fname, depth=0):
         i = f.defs.get(v)
         if i is None:
             return {'unk'}
+        r = None
         if i.op == 'phi':
             r = set()
-            for o in i.ops:
-                r |= val(o, seen)
-            return r
-        if i.op == 'select':
-            return val(i.ops[1], seen) | val(i.ops[2], seen)
-        if i.op == 'call' and i.callee in mod.funcs and depth < 8:
+            for o, pb in i.extra['incoming']:
+                r |= filt(val(o, seen, pb), edge_constraints(f, o, pb) if not re.match(r'^-?\d+$', o) else [])
+        elif i.op == 'select':
+            c = f.defs.get(i.ops[0])
+            a, b = val(i.ops[1], seen, block), val(i.ops[2], seen, block)
+            if c is not None and c.op == 'icmp' and re.match(r'^-?\d+$', c.ops[1]):
+                k = int(c.ops[1])
+                if _strip(f, i.ops[1]) == _strip(f, c.ops[0]):
+                    a = filt(a, [(c.extra['pred'], k)])
+                if _strip(f, i.ops[2]) == _strip(f, c.ops[0]):
+                    b = filt(b, [(_NEG[c.extra['pred']], k)])
+            r = a | b
+        elif i.op == 'call' and (i.callee in mod.funcs or i.callee in EXT_RETS) and depth < 8:
             r = set()
             for x in ret_set(mod, i.callee, depth + 1):
                 if isinstance(x, tuple) and x[0] == 'param':
-                    r |= val(i.args[x[1]][1], seen) if x[1] < len(i.args) else {'unk'}
+                    r |= val(i.args[x[1]][1], seen, block) if x[1] < len(i.args) else {'unk'}
                 else:
                     r.add(x)
-            return r
-        if i.op in ('zext', 'sext', 'trunc', 'bitcast', 'freeze'):
-            return val(i.ops[0], seen)
-        return {'unk:%s' % i.op}
+        elif i.op in ('zext', 'sext', 'trunc', 'bitcast', 'freeze'):
+            r = val(i.ops[0], seen, block)
+        if r is None:
+            return {'unk:%s' % i.op}
+        return filt(r, edge_constraints(f, v, block)) if block else r
+    def disjunctive(v, block):
+        """constraints on v when `block` is entered only through edges each of which tests v against a constant ("a == X || a == Y")"""
+        alts = []
+        sv = _strip(f, v)
+        for p_ in f.blocks[block].preds:
+            t = f.blocks[p_].insns[-1]
+            if t.op != 'br' or not t.extra.get('cond'):
+                return None
+            c = f.defs.get(t.extra['cond'])
+            if c is None or c.op != 'icmp' or not re.match(r'^-?\d+$', c.ops[1]) or _strip(f, c.ops[0]) != sv:
+                return None
+            tt, tf = t.extra['targets']
+            if tt == block and tf != block:
+                alts.append((c.extra['pred'], int(c.ops[1])))
+            elif tf == block and tt != block:
+                alts.append((_NEG[c.extra['pred']], int(c.ops[1])))
+            else:
+                return None
+        return alts or None
+
     for i in f.all_insns():
         if i.op == 'ret' and i.ops:
-            out |= val(i.ops[0], frozenset())
+            v0 = i.ops[0]
+            d0 = f.defs.get(v0)
+            if d0 is not None and d0.op == 'phi' and d0.block == i.block:
+                for o, pb in d0.extra['incoming']:
+                    vs = val(o, frozenset([v0]), pb)
+                    if not re.match(r'^-?\d+$', o):
+                        vs = filt(vs, edge_constraints(f, o, pb))
+                        # walk up through single-successor blocks to a block entered only through tests of this value
+                        alts = None
+                        for D in f.dominators().get(pb, {pb}):
+                            alts = disjunctive(o, D)
+                            if alts:
+                                break
+                        if alts:
+                            u_ = set()
+                            for a_ in alts:
+                                u_ |= filt(vs, [a_])
+                            vs = u_
+                    out |= vs
+            else:
+                out |= val(v0, frozenset(), i.block)
     _ret_memo[key] = out
     return out
 
@@ -251,3 +351,34 @@ def returns_via(f, start):
         for s in blk.succs:
             work.append((s, b))
     return vals
+
+
+def reaching_stores(mod, f, at, insn):
+    """stores to the local cell `at` (set containing one alloca atom) that may be the last one before `insn`;
+    None in the result means a path from the entry reaches `insn` with no store"""
+    P = prov(mod, f)
+    out = set()
+    seen = set()
+
+    def last_in(block, upto):
+        blk = f.blocks[block].insns
+        for j in reversed(blk[:upto]):
+            if j.op == 'store' and P.atoms(j.ops[1]) == at:
+                return j
+            if j.op == 'call' and any(P.atoms(v) == at for _, v in (j.args or [])):
+                return j          # the callee may write through the pointer
+        return None
+    work = [(insn.block, insn.idx)]
+    while work:
+        b, upto = work.pop()
+        j = last_in(b, upto)
+        if j is not None:
+            out.add(j)
+            continue
+        if not f.blocks[b].preds:
+            out.add(None)
+        for p in f.blocks[b].preds:
+            if p not in seen:
+                seen.add(p)
+                work.append((p, len(f.blocks[p].insns)))
+    return out
